@@ -213,17 +213,20 @@ def handle (st : DState) (op : String) (args impl : List String) : Option (DStat
     | some s, [dt, cnt, axis, vals] =>
       match parseIdx cnt, parseNat axis, parseList vals with
       | some cnt, some axis, some vals =>
-        match (if s.dtype == "Bool" && dt != "Bool" then none else vals.mapM (convTok dt s.dtype)) with
-        | none => (st, cmp "da_app.conv" ["err", "H5Error"] impl)
-        | some vs =>
-          let s := if implOk impl then
-              let off := (List.range s.implShape.length).map fun i => if i == axis then (s.implShape[i]?).getD 0 else 0
-              let ext := (List.range s.implShape.length).map fun i => (s.implShape[i]?).getD 0 + (if i == axis then (cnt[i]?).getD 0 else 0)
-              { s with hist := .write off cnt vs :: .extent ext :: s.hist, implShape := ext }
-            else s
-          match s.arr.append cnt axis vs with
-          | .ok a' => ({ st with arr := some { s with arr := a' } }, cmp "da_app.ok" ["ok"] impl)
-          | .error e => ({ st with arr := some s }, cmp "da_app.err" (errTok e) impl)
+        -- NDArray.appendChecked (fix 80dff08): the front-end checks, the enlargement, the write — refused when the element classes do
+        -- not convert (only booleans convert into a boolean array), and then the enlargement is taken back
+        let conv := if s.dtype == "Bool" && dt != "Bool" then none else vals.mapM (convTok dt s.dtype)
+        let vs := conv.getD []
+        let s := if implOk impl then
+            let off := (List.range s.implShape.length).map fun i => if i == axis then (s.implShape[i]?).getD 0 else 0
+            let ext := (List.range s.implShape.length).map fun i => (s.implShape[i]?).getD 0 + (if i == axis then (cnt[i]?).getD 0 else 0)
+            { s with hist := .write off cnt vs :: .extent ext :: s.hist, implShape := ext }
+          else s
+        let (a', r) := s.arr.appendChecked cnt axis vs conv.isSome
+        ({ st with arr := some { s with arr := a' } },
+          match r with
+          | .ok () => cmp "da_app.ok" ["ok"] impl
+          | .error e => cmp (if conv.isSome then "da_app.err" else "da_app.conv") (errTok e) impl)
       | _, _, _ => (st, .malformed "da_app")
     | none, _ => noArr
     | _, _ => (st, .malformed "da_app")
